@@ -103,6 +103,8 @@ class _LineCov:
         self.root = None
 
     def install(self):
+        if os.environ.get("VERIF_NO_LINECOV"):
+            return
         try:
             import biobalm
             mon = sys.monitoring
